@@ -93,8 +93,12 @@ def rule_r2(facts, col):
     for body in facts.impl_bodies(BLOCK_TRAIT, "work"):
         if body.self_adt != "au::AuDecode":
             continue
+        body = effects.work_view(facts, body)      # a phase may parse-and-consume in a helper (`take_be_u32(i)`)
         consumes = [bb for bb, t in body.calls_to(effects.CONSUME)]
         cset = set(consumes)
+        # blocks that can be reached without any consume, for the Option/Result values known on the way (a helper returning
+        # None when it consumed nothing and Some when it did)
+        unconsumed, _ = flag_search(body, [0], avoid=cset, track_bools=False)
         n = 0
         for bb, blk in enumerate(body.blocks):
             for s in blk["stmts"]:
@@ -109,7 +113,7 @@ def rule_r2(facts, col):
                 e = body.rvalue_expr(s["rv"])
                 variant = e.variant if e.k == "agg" else "?"
                 key = "%s:->%s" % (body.q, variant)
-                before = any(body.dominates(c, bb) for c in consumes)
+                before = any(body.dominates(c, bb) for c in consumes) or bb not in unconsumed
                 r = body.reachable(bb, avoid=cset)
                 after_all = not any(body.term(x)["k"] == "return" for x in r) and bb not in cset
                 if before or after_all:
